@@ -9,7 +9,8 @@ from props import c01
 LEVEL = "proof"
 RULE = ("quadruples (Y, X, f, g, flag): base pair from the C01 families plus identical pairs, equal-sum/equal-histogram "
         "non-identical pairs and pairs that become identical after recoding; f, g injective recodings (identity, permutation "
-        "of the used codes, offset, order-reversing, sparse up to 2^20-1, affine); both flag values; the real code runs on "
+        "of the used codes, offset, order-reversing, sparse up to 2^20-1, affine); both flag values; plus SCALE quadruples at n = "
+        "40 000 .. 200 000 regenerated from (family, n, seed, recoding); the real code runs on "
         "(Y, X) and on (f(Y), g(X)), each is compared with the Coq model and, where the theorem applies, with each other; "
         "non-trivial = both sides take >= 2 values and at least one of f, g is not the identity; distinct = distinct quadruples")
 THEOREMS = ["C02_core_relabel", "C02_veq_spec", "C02_selfpair_exact", "C02_entry_relabel", "C02_prefix_refuted"]
@@ -154,6 +155,65 @@ def evaluate(pid, quads):
     return out
 
 
+SCALE_QUADS = [  # (family, n, flag, f, g)
+    ("ad_ad", 70000, True, ("reverse", 11), ("offset", 1000)),
+    ("ad_ad", 70000, False, ("perm", 5), ("reverse", 0)),
+    ("self_ad", 70000, True, ("perm", 7), ("perm", 7)),              # identical stays identical
+    ("self_ad", 65537, False, ("offset", 900000), ("offset", 900000)),
+    ("xsingles_4440", 40000, True, ("reverse", 3), ("perm", 9)),     # the singleton strata leave the low codes
+    ("xsingles_1025", 65537, False, ("offset", 17), ("reverse", 500)),
+    ("ycard", 70000, True, ("perm", 13), ("offset", 5)),
+    ("sorted_lowcard", 200000, False, ("reverse", 40), ("perm", 3)),
+    ("biggroup", 70000, True, ("perm", 21), ("reverse", 1)),
+]
+
+
+def scale_quads(run, quads_spec, replay_case=None):
+    """relabel invariance on the SCALE families: (gen) and (gen + relabel) both against np_terms and against each other"""
+    specs = []
+    if replay_case is not None:
+        pairs = [(replay_case["gen"], replay_case["gen_rel"], replay_case["flag"])]
+    else:
+        pairs = []
+        for fam, n, flag, f, g in quads_spec:
+            seed = run.rng.randrange(10 ** 6)
+            f = (f[0], run.rng.randrange(10 ** 6)) if f[0] == "perm" else f
+            g = (g[0], f[1]) if (g[0] == "perm" and fam.startswith("self")) else ((g[0], run.rng.randrange(10 ** 6)) if g[0] == "perm" else g)
+            gen = {"fam": fam, "n": n, "seed": seed}
+            pairs.append((gen, dict(gen, relabel={"f": list(f), "g": list(g)}), flag))
+    for gen, gen_rel, flag in pairs:
+        specs.append({"kind": "scale", "gen": gen, "flag": flag})
+        specs.append({"kind": "scale", "gen": gen_rel, "flag": flag})
+    impl, exp, st, _ = c01.run_scale_raw(specs)
+    nbad, rows = 0, []
+    for k, (gen, gen_rel, flag) in enumerate(pairs):
+        b_ok, b = c01.compare_c(impl[2 * k], exp[2 * k])
+        r_ok, r = c01.compare_c(impl[2 * k + 1], exp[2 * k + 1])
+        applicable = (not flag) or (st[2 * k]["identical"] == st[2 * k + 1]["identical"])
+        inv_ok = True
+        if applicable and "impl" in b and "impl" in r:
+            inv_ok = abs(b["impl"] - r["impl"]) <= b["tolerance"] + r["tolerance"]
+        model_inv = (not applicable) or abs(b["model"] - r["model"]) <= 1e-9 * (b["sum_abs_terms"] + 1.0)
+        run.count_case(["scale", gen_rel, flag], True)
+        rows.append(dict(st[2 * k + 1], fam=gen["fam"], flag=flag, relabel=gen_rel["relabel"], ok=b_ok and r_ok and inv_ok))
+        if not model_inv:
+            run.violation("broken-obligation", "mirror-consistency(np_terms invariance)", found_input=False, extra=[gen_rel, b["model"], r["model"]])
+        if b_ok and r_ok and inv_ok:
+            continue
+        nbad += 1
+        if nbad == 1:
+            run.violation("counterexample", "C02 relabel invariance on the SCALE families (vectors regenerated from family, n, seed)",
+                          case={"kind": "scale", "gen": gen, "gen_rel": gen_rel, "flag": flag},
+                          impl={"score(Y,X)": b.get("impl", b.get("impl_error")), "score(fY,gX)": r.get("impl", r.get("impl_error"))},
+                          model={"score(Y,X)": b["model"], "score(fY,gX)": r["model"], "tolerances": [b["tolerance"], r["tolerance"]]},
+                          clause=("score(Y, X, flag) = model value" if not b_ok else "score(f(Y), g(X), flag) = model value on the recoded pair"
+                                  if not r_ok else "score(f(Y), g(X), flag) = score(Y, X, flag) for injective f, g")
+                          + " [family %s, n = %d]" % (gen["fam"], gen["n"]))
+    run.oblige("correspondence:SCALE quadruples (n = 40 000 .. 200 000), both scores = eval(np_terms) and invariant under recoding",
+               nbad == 0, "%d of %d fail" % (nbad, len(pairs)) if nbad else "")
+    run.cov["scale_families"] = rows
+
+
 def failing(e):
     return not (e["base"][0] and e["rel"][0] and e["inv_ok"])
 
@@ -165,6 +225,9 @@ def check(run, replay):
         raise vlib.Broken("build:MI/Model.vo", log)
     vlib.standard_proof_phase(run, ["Props/C02.vo"], "Outrank.Props.C02", THEOREMS, allowed=vlib.STD_REAL_AXIOMS)
 
+    if replay is not None and (replay.get("case") or {}).get("kind") == "scale":
+        scale_quads(run, [], replay_case=replay["case"])
+        return
     if replay is not None:
         quads = [replay["case"]]
     else:
@@ -235,6 +298,15 @@ def check(run, replay):
     run.oblige("correspondence:impl(Y,X) and impl(fY,gX) = model within tolerance; impl invariant where C02_entry_relabel applies",
                nbad == 0, "%d of %d quadruples fail" % (nbad, len(quads)) if nbad else
                "worst |impl-model| = %.2f * 2^-24 * (sum|terms|+1e-6), allowed %.0f" % (worst, c01.TOL_FACTOR))
+    if replay is None:
+        sc, stt = [], []
+        for q, e in zip(quads, ev):
+            if len(q["Y"]) <= 400 and len(sc) < 150:
+                sc.append({"Y": q["Y"], "X": q["X"], "flag": q["flag"]})
+                stt.append(e["base"][2])
+        small_ct = vlib.run_impl("impl_c01_gen.py", {"scale": [], "small": sc})["small"]
+        c01.np_terms_crosscheck(run, sc, stt, small_ct)
+        scale_quads(run, SCALE_QUADS)
     run.cov["input_distribution"] = {k: (int(v) if isinstance(v, bool) else v) for k, v in hist.items()}
     run.cov["exhaustive"] = False
     if run.tier == "thorough" and replay is None:
